@@ -3,7 +3,7 @@
    (Model/Electre.v: conc_cell, disc_cell, wor_spec_cell); the theorems are the
    properties of those definitions and of the relations built from them. *)
 From Coq Require Import QArith List Bool Arith.
-From SKC Require Import Base.QBool Base.QList Model.Electre Theory.Electre Theory.Result Theory.ElectreInv Theory.Distill.
+From SKC Require Import Base.QBool Base.QList Model.Electre Theory.Electre Theory.Result Theory.ElectreInv Theory.Distill Theory.Electre2.
 Import ListNotations.
 
 Theorem C08_outrank_iff : forall n p q conc disc i j,
@@ -83,6 +83,23 @@ Theorem C08_distillation_independent_of_listing_order : forall n sg (ts tw ts' t
   end.
 Proof. intros n sg ts tw ts' tw' invert P. exact (ranker_follows_alternatives n sg P ts tw ts' tw' invert). Qed.
 Print Assumptions C08_distillation_independent_of_listing_order.
+
+(* discordance: the numerator is the LARGEST amount by which b beats a on any criterion (an upper bound of every
+   criterion's shortfall, and attained), and divided by the largest criterion range it lies in [0, 1] *)
+Theorem C08_discordance_is_largest_shortfall : forall objs ra rb,
+  length ra = length objs -> length rb = length objs ->
+  (forall j, (j < length objs)%nat -> shortfall (nth j objs true) (nth j ra 0) (nth j rb 0) <= disc_num objs ra rb) /\
+  (objs = [] \/ exists j, (j < length objs)%nat /\
+                          disc_num objs ra rb = shortfall (nth j objs true) (nth j ra 0) (nth j rb 0)).
+Proof. exact disc_num_is_largest_shortfall. Qed.
+Print Assumptions C08_discordance_is_largest_shortfall.
+
+Theorem C08_discordance_in_unit_interval : forall objs rows ra rb,
+  Forall (fun r => length r = length objs) rows -> In ra rows -> In rb rows ->
+  0 < max_range (length objs) rows ->
+  0 <= disc_cell objs (max_range (length objs) rows) ra rb <= 1.
+Proof. exact discordance_bounds. Qed.
+Print Assumptions C08_discordance_in_unit_interval.
 
 Example C08_example :
   let objs := [true; false] in let w := [3#4; 1#4] in
